@@ -99,6 +99,7 @@ def is_logger(stmt):
 
 def parse(repo):
     src = strip_strings(strip_comments(open(os.path.join(repo, FILE)).read()))
+    src = re.sub(r"(?m)^[ \t]*#[^\n]*$", "", src)        # preprocessor lines (#ifdef TAPKEE_USE_LGPL_COVERTREE / #endif)
     m = re.search(r"\bNeighbors\s+find_neighbors\s*\(\s*NeighborsMethod\b", src)
     if not m:
         raise TranslateError("find_neighbors(NeighborsMethod ...) not found")
@@ -121,7 +122,7 @@ def parse(repo):
         if si is None:
             raise TranslateError("statement not understood: %r" % s[:80])
         cond, inner = si
-        inner_st = [x for x in statements(inner) if not is_logger(x)] if "{" in s or ";" in inner else []
+        inner_st = [x for x in statements(inner) if not is_logger(x)]
         if not seen_decl:
             if tab["clamp"] is not None or len(inner_st) != 1:
                 raise TranslateError("clamp of k not understood")
